@@ -50,8 +50,26 @@ def check_pair(rng, prog):
     except Exception as ex:
         return {'python_plain': base, 'python_noisy': noisy, 'raised': repr(ex)}
     if a != b:
-        return {'python_plain': base, 'python_noisy': noisy, 'differs': [k for k in a if a[k] != b.get(k)][:5]}
+        return {'python_plain': base, 'python_noisy': noisy, 'differs': [k for k in a if a[k] != b.get(k)][:5],
+                'ulps': max_ulps(a, b), 'df_read_first': df_read_first(noisy)}
     return None
+
+def max_ulps(a, b):
+    """largest difference, in units in the last place, between corresponding observations (inf if not comparable)"""
+    worst = 0.0
+    for k in a:
+        ra, rb = a[k], b.get(k)
+        if rb is None or len(ra) != len(rb): return math.inf
+        for xa, xb in zip(ra, rb):
+            if xa == xb: continue
+            fa, fb = slp.unbits(xa), slp.unbits(xb)
+            if fa is None or fb is None or not (math.isfinite(fa) and math.isfinite(fb)): return math.inf
+            worst = max(worst, abs(fa - fb) / max(math.ulp(fa), math.ulp(fb)))
+    return worst
+
+def df_read_first(lines):
+    """does the history read .df (directly or through a budget / dof-dependent report) of some result?"""
+    return any(('.df' in l) for l in lines)
 
 def check_derived_after_corr(rng, prog):
     """objects BUILT after the correlations are declared must report what a fresh history reports, even when their
@@ -84,7 +102,7 @@ def search(rng, tier, broken):
         r = check_pair(rng, prog)
         if r is None:
             r = check_derived_after_corr(rng, prog)
-        if r is not None:
+        if r is not None and not is_known(r):
             return {'tried': i + 1, 'failing': r}
     return {'tried': n, 'failing': None}
 
@@ -99,9 +117,24 @@ def kf_C10_cache():
     u_fresh = (x1 + x2).u
     return (u_after != u_fresh, 'y.u after declaring r=0.5: %r, fresh x1+x2: %r (read before: %r)' % (u_after, u_fresh, u_before))
 
+def kf_C10_df_first_ulp():
+    """reading .df of a result with finite-dof inputs BEFORE its uncertainty fills the _u cache with the square root of the
+    Welch-Satterthwaite variance sum (a different summation order from std_variance_real): .u / .v then differ in the last place"""
+    from GTC import core
+    def run(noisy):
+        new_context(77)
+        x0 = core.ureal(1.24, 0.426, 4); x1 = core.ureal(2.213, 0.55, 4); x2 = core.ureal(2.284, 0.131, math.inf)
+        t1 = x2 / (core.magnitude(x1) + 1.25); t3 = core.atan(x0) + t1; t4 = t3 / (core.magnitude(x0) + 1.25)
+        if noisy: _ = t4.df
+        return t4.u, t4.v
+    a, b = run(True), run(False)
+    return (a != b, 't4.u, t4.v = %r after reading t4.df first, %r otherwise' % (a, b))
+
 def is_known(f):
-    """the known finding needs a set_correlation AFTER a read/result of a dependent result; the oracle's noisy
-    histories never do that, so nothing it reports is the known finding"""
+    """C10-cache needs a set_correlation AFTER a read/result of a dependent result; the oracle's noisy histories never do that.
+    C10-df-first-ulp: the noisy history reads a .df and every differing observation is within 4 units in the last place."""
+    if isinstance(f, dict) and 'raised' not in f and f.get('df_read_first') and f.get('ulps', math.inf) <= 4.0:
+        return True
     return False
 
 def replay(payload):
